@@ -464,11 +464,14 @@ def warm_decide(case, mod=3):
 
 
 def warmup(G, call, layers=("directed", "bidirected", "circle", "undirected")):
-    """Exercise 'query, edit the same object in place, query again': perturb G in place (reverse one
-    directed edge, or drop one other edge), run `call()` on the perturbed graph (result and exceptions
-    ignored), then restore G in place.  Afterwards G has the same nodes and edges as before (edge insertion
-    order may differ, which no property may depend on).  A function that keeps per-object state across
-    calls (memo tables keyed by the graph object, cached views) answers the real query from stale data."""
+    """Exercise 'query, edit the same object in place, query again': perturb G in place, run `call()` on the
+    perturbed graph (result and exceptions ignored), then restore G in place.  The perturbation keeps the
+    number of nodes and of edges per type (so count-validated memo tables stay "valid"): one edge (u,v) is
+    RE-POINTED to (u,w) for a node w not adjacent to u in that layer (changes adjacency); if there is no such
+    w it is reversed (directed layers) or just dropped.  Removal and re-insertion alternate between the
+    single-edge and the bulk API (remove_edge / remove_edges_from, add_edge / add_edges_from), since caches
+    are often cleared in only some of them.  Afterwards G has the same nodes and edges as before (edge
+    insertion order may differ, which no property may depend on)."""
     mixed = hasattr(G, "get_graphs")
     for layer in layers:
         try:
@@ -482,33 +485,49 @@ def warmup(G, call, layers=("directed", "bidirected", "circle", "undirected")):
             continue
         u, v = es[len(es) // 2]
         data = dict(gr.get_edge_data(u, v) or {})
+        bulk = (len(es) % 2 == 1)
 
         def rm(a, b):
-            G.remove_edge(a, b, layer) if mixed else G.remove_edge(a, b)
+            if mixed:
+                G.remove_edges_from([(a, b)], layer) if bulk else G.remove_edge(a, b, layer)
+            else:
+                G.remove_edges_from([(a, b)]) if bulk else G.remove_edge(a, b)
 
         def ad(a, b, **kw):
-            G.add_edge(a, b, layer, **kw) if mixed else G.add_edge(a, b, **kw)
+            if mixed:
+                G.add_edges_from([(a, b)], layer, **kw) if bulk else G.add_edge(a, b, layer, **kw)
+            else:
+                G.add_edges_from([(a, b)], **kw) if bulk else G.add_edge(a, b, **kw)
         try:
             rm(u, v)
         except Exception:
             return False
-        rev = False
+        moved = None
+        cands = [w for w in list(gr.nodes) if w != u and w != v and not gr.has_edge(u, w)
+                 and not (gr.is_directed() and gr.has_edge(w, u))]
+        trial = [(u, w) for w in cands[:3]]
         if gr.is_directed() and not gr.has_edge(v, u):
+            trial.append((v, u))
+        for a_, b_ in trial:
             try:
-                ad(v, u)
-                rev = True
+                ad(a_, b_)
+                moved = (a_, b_)
+                break
             except Exception:
-                rev = False
+                moved = None
         try:
             call()
         except BaseException:
             pass
         finally:
-            if rev:
+            if moved is not None:
                 try:
-                    rm(v, u)
+                    rm(*moved)
                 except Exception:
-                    pass
+                    try:
+                        gr.remove_edge(*moved)
+                    except Exception:
+                        pass
             try:
                 ad(u, v, **data)
             except Exception:
